@@ -4,9 +4,9 @@ import (
 	"bufio"
 	"encoding/json"
 	"fmt"
+	"math/rand/v2"
 	"os"
 	"path/filepath"
-	"runtime"
 	"strconv"
 	"strings"
 	"testing"
@@ -57,6 +57,7 @@ func runMany(t *testing.T) {
 	outp := os.Getenv("VERIF_OUT")
 	rdir := envOr("VERIF_REPLAY_DIR", os.TempDir())
 	maxViol := int(atoi(os.Getenv("VERIF_MAX_VIOL"), 3))
+	sweep := os.Getenv("VERIF_SWEEP")
 	keep := os.Getenv("VERIF_TRACE") != ""
 	var out *bufio.Writer
 	if outp != "" {
@@ -90,41 +91,94 @@ func runMany(t *testing.T) {
 		}
 		c := h.Generate(prop, seed, tier)
 		c.Harness, c.Property, c.Tier, c.Seed = hn, prop, tier, seed
-		res := RunCase(t, c, keep)
-		if i < 2 {
-			res.Case = c
+		cases := []*Case{c}
+		if sweep != "" {
+			cases = sweepCases(t, c, sweep, seed)
 		}
-		for _, v := range res.Violations {
-			sg := sigOf(v)
-			if seen[sg] || found >= maxViol {
-				continue
+		for ci, c := range cases {
+			if deadline > 0 && ci > 0 && time.Now().Unix() >= deadline+30 {
+				break
 			}
-			seen[sg] = true
-			found++
-			small, runs := Shrink(t, c, sg, 150)
-			// pin the schedule actually taken so that the file is self-contained
-			final := RunCase(t, small, true)
-			res.ShrinkRuns = runs
-			if final.Harness == "" && sameFailure(final, sg) {
-				p := filepath.Join(rdir, fmt.Sprintf("%s-%s-%d-%s.json", prop, hn, seed, hashStr(sg)))
-				rf := map[string]any{"case": small, "expect_sig": sg, "expect_trace_hash": final.TraceHash, "violations": final.Violations, "trace": final.Trace, "original_seed": seed, "shrink_runs": runs}
-				b, _ := json.MarshalIndent(rf, "", " ")
-				if err := os.WriteFile(p, b, 0o644); err == nil {
-					res.Replay = p
+			res := RunCase(t, c, keep)
+			res.SweepPos = ci
+			if i < 2 && ci == 0 {
+				res.Case = c
+			}
+			for _, v := range res.Violations {
+				sg := sigOf(v)
+				if seen[sg] || found >= maxViol {
+					continue
 				}
-			} else {
-				res.Harness = "shrunk case did not reproduce " + sg + " : " + final.Harness
+				seen[sg] = true
+				found++
+				small, runs := Shrink(t, c, sg, 150)
+				final := RunCase(t, small, true)
+				res.ShrinkRuns = runs
+				if final.Harness == "" && sameFailure(final, sg) {
+					p := filepath.Join(rdir, fmt.Sprintf("%s-%s-%d-%s.json", prop, hn, seed, hashStr(sg)))
+					rf := map[string]any{"case": small, "expect_sig": sg, "expect_trace_hash": final.TraceHash, "violations": final.Violations, "trace": final.Trace, "original_seed": seed, "shrink_runs": runs}
+					b, _ := json.MarshalIndent(rf, "", " ")
+					if err := os.WriteFile(p, b, 0o644); err == nil {
+						res.Replay = p
+					}
+				} else {
+					vb, _ := json.Marshal(final.Violations)
+					res.Harness = "shrunk case did not reproduce " + sg + " : " + final.Harness + " got " + string(vb) + fmt.Sprintf(" ops=%d shrinkruns=%d", len(small.Ops), runs)
+				}
 			}
+			res.Trace = nil
+			b, _ := json.Marshal(res)
+			out.Write(b)
+			out.WriteByte('\n')
 		}
-		res.Trace = nil
-		b, _ := json.Marshal(res)
-		out.Write(b)
-		out.WriteByte('\n')
 		if i%50 == 49 {
 			out.Flush()
-			runtime.GC()
 		}
 	}
+}
+
+// sweepCases turns one generated history into a fault sweep: a fault-free run
+// measures how many faultable seam calls the history makes (for "crash": how many the
+// last operation makes), then one case per fault position is produced ("all") or k
+// positions are sampled from the seed.
+func sweepCases(t *testing.T, c *Case, sweep string, seed uint64) []*Case {
+	kind, arg, _ := strings.Cut(sweep, ":")
+	base := cloneCase(c)
+	base.Plan.ErrAt = nil
+	base.Plan.CrashAt = -1
+	r0 := RunCase(t, base, false)
+	n := r0.Stats.Faultable
+	if kind == "crash" {
+		n = r0.Probes["last_op_faultable_calls"]
+	}
+	out := []*Case{base}
+	if r0.Harness != "" || n <= 0 {
+		return out
+	}
+	var pos []int
+	if arg == "all" {
+		for k := 0; k < n; k++ {
+			pos = append(pos, k)
+		}
+	} else {
+		k := int(atoi(arg, 3))
+		g := rand.New(rand.NewPCG(seed, 0x5eed))
+		for j := 0; j < k; j++ {
+			pos = append(pos, g.IntN(n))
+		}
+	}
+	for _, k := range pos {
+		cc := cloneCase(c)
+		if kind == "crash" {
+			cc.Plan.ErrAt = nil
+			cc.Plan.CrashAt = k
+		} else {
+			cc.Plan.CrashAt = -1
+			cc.Plan.ErrAt = []int{k}
+		}
+		out = append(out, cc)
+	}
+	return out
 }
 
 func replay(t *testing.T) {
